@@ -1324,3 +1324,60 @@ def _coq_mt(inp):
 
 
 Op("music_theory", _gen_mt, _impl_mt, _coq_mt)
+
+
+# ---------------------------------------------------------------------------------------------- Bar / Track / Composition
+from scoda.elements.composition import Composition
+from scoda.elements.track import Track
+ERRMAP["TrackException"] = "TrackErr"
+
+
+def show_comp(c):
+    return "|".join(("~" if t.program is None else str(t.program)) + ">" +
+                    "&".join(show_sig(b.time_signature_numerator, b.time_signature_denominator, b.key_signature) + "=" + show_seq(b.sequence)
+                             for b in t.bars) for t in c.tracks)
+
+
+def _gen_comp(r):
+    tracks, meta = gen_piece_tracks(r, aligned=True)
+    rels = []
+    for i, ms in enumerate(tracks):
+        if r.random() < 0.3:
+            ms = ms + [PC(i, r.choice([1, 1, 2]), G.tick(r, 100))]
+            if r.random() < 0.4:
+                ms = ms + [PC(i, r.choice([1, 2]), G.tick(r, 200))]
+        rel = G.abs_to_rel(ms)
+        if r.random() < 0.4:
+            rel.append(WT(0, r.choice([1, 12, 24, 96])))
+        rels.append(rel)
+    return rels, meta, r.randrange(len(rels)), r.randrange(3), r.choice([1, -1, 2, 12, 7, 50, -60, 5])
+
+
+def _impl_comp(inp):
+    rels, meta, ti, bi, k = inp
+    ss = [mk_rel(ms) for ms in rels]
+    try:
+        c = Composition.from_sequences(ss, meta)
+    except Exception as e:
+        return show_exc(e)
+    before = show_comp(c)
+    try:
+        cp = c.copy()
+    except Exception as e:
+        return before + "#" + show_exc(e)
+    try:
+        cp.tracks[ti].bars[bi].transpose(k)
+    except Exception as e:
+        assert show_comp(c) == before, "operating on the copy changed the original"
+        return show_comp(c) + "#" + show_comp(cp) + "#" + show_exc(e)
+    out = show_comp(c) + "#" + show_comp(cp) + "#"
+    try:
+        out += "|".join(show_seq(s) for s in cp.to_sequences())
+    except Exception as e:
+        out += show_exc(e)
+    return out
+
+
+Op("composition", _gen_comp, _impl_comp,
+   lambda inp: f"comp_scenario {lit_msgss(inp[0])} {inp[1]}%nat {inp[2]}%nat {inp[3]}%nat {z(inp[4])}",
+   lambda inp: sum(len(x) for x in inp[0]) > 3)
